@@ -115,6 +115,10 @@ func PerformInputLookup(aggs *structs.QueryAggregators) error {
 		return fmt.Errorf("PerformInputLookup: Only .csv and .csv.gz formats are currently supported")
 	}
 
+	if filename != filepath.Base(filename) || filename == "." || filename == ".." {
+		return fmt.Errorf("PerformInputLookup: invalid lookup file name %q", filename)
+	}
+
 	filePath := filepath.Join(config.GetLookupPath(), filename)
 
 	file, err := os.Open(filePath)
